@@ -273,8 +273,7 @@ Definition reno_pos (r : reno) : Prop :=
 
 (* the stronger statement of the property text: never below one MSS *)
 Definition reno_ge_mss (r : reno) : Prop :=
-  0 < rn_mss r <= usize_max /\ rn_mss r <= rn_cwnd r /\ 0 <= rn_rwnd r /\
-  (rn_in_fast_recovery r = true -> rn_mss r <= rn_ssthresh r).
+  0 < rn_mss r <= usize_max /\ rn_mss r <= rn_cwnd r /\ 0 <= rn_rwnd r.
 
 Lemma usize_max_pos : 0 < usize_max.
 Proof. reflexivity. Qed.
@@ -287,7 +286,7 @@ Proof. unfold reno_pos, reno_new. reno_fields. repeat split; try reflexivity. vm
 Lemma reno_new_ge_mss : reno_ge_mss reno_new.
 Proof.
   unfold reno_ge_mss, reno_new. reno_fields.
-  split; [split; [reflexivity | vm_compute; discriminate]|]. split; [vm_compute; discriminate|]. split; [vm_compute; discriminate | discriminate].
+  split; [split; [reflexivity | vm_compute; discriminate]|]. split; vm_compute; discriminate.
 Qed.
 
 Lemma reno_clamp_ge : forall r c, rn_mss r <= reno_clamp r c.
@@ -298,7 +297,7 @@ Proof.
   intros r len r' (Hm & Hc & Hs & Hw) H. unfold reno_on_ack in H.
   destruct (len =? 0); [inversion H; subst; repeat split; assumption|].
   destruct (rn_in_fast_recovery r).
-  - inversion H; subst r'. unfold reno_pos. reno_fields. auto.
+  - inversion H; subst r'. unfold reno_pos. reno_fields. repeat split; lia.
   - obind_inv H. inversion H; subst r'. unfold reno_pos. reno_fields.
     pose proof (reno_clamp_ge r (sat_add_usize (rn_cwnd r) a)). repeat split; lia.
 Qed.
@@ -306,13 +305,12 @@ Qed.
 Lemma reno_on_ack_ge_mss : forall r len r',
   reno_ge_mss r -> reno_on_ack r len = Ok r' -> reno_ge_mss r'.
 Proof.
-  intros r len r' (Hm & Hc & Hw & Hs) H. unfold reno_on_ack in H.
+  intros r len r' (Hm & Hc & Hw) H. unfold reno_on_ack in H.
   destruct (len =? 0); [inversion H; subst; unfold reno_ge_mss; auto|].
   destruct (rn_in_fast_recovery r) eqn:Hf.
-  - inversion H; subst r'. unfold reno_ge_mss. reno_fields. specialize (Hs eq_refl).
-    repeat split; try lia; try discriminate.
+  - inversion H; subst r'. unfold reno_ge_mss. reno_fields. repeat split; lia.
   - obind_inv H. inversion H; subst r'. unfold reno_ge_mss. reno_fields.
-    pose proof (reno_clamp_ge r (sat_add_usize (rn_cwnd r) a)). repeat split; try lia; try discriminate.
+    pose proof (reno_clamp_ge r (sat_add_usize (rn_cwnd r) a)). repeat split; lia.
 Qed.
 
 Lemma reno_on_dup_ack_pos : forall r len, reno_pos r -> reno_pos (reno_on_dup_ack r len).
@@ -325,10 +323,10 @@ Qed.
 
 Lemma reno_on_dup_ack_ge_mss : forall r len, reno_ge_mss r -> reno_ge_mss (reno_on_dup_ack r len).
 Proof.
-  intros r len (Hm & Hc & Hw & Hs). unfold reno_on_dup_ack. destruct (rn_in_fast_recovery r) eqn:Hf.
+  intros r len (Hm & Hc & Hw). unfold reno_on_dup_ack. destruct (rn_in_fast_recovery r) eqn:Hf.
   - unfold reno_ge_mss. reno_fields.
-    pose proof (reno_clamp_ge r (sat_add_usize (rn_cwnd r) len)). repeat split; try lia; auto.
-  - unfold reno_ge_mss. rewrite Hf. repeat split; try assumption; try lia; try discriminate.
+    pose proof (reno_clamp_ge r (sat_add_usize (rn_cwnd r) len)). repeat split; lia.
+  - unfold reno_ge_mss. repeat split; lia.
 Qed.
 
 Lemma reno_on_loss_pos : forall r f, reno_pos r -> reno_pos (reno_on_loss r f).
@@ -341,8 +339,8 @@ Qed.
 
 Lemma reno_on_loss_ge_mss : forall r f, reno_ge_mss r -> reno_ge_mss (reno_on_loss r f).
 Proof.
-  intros r f (Hm & Hc & Hw & Hs). unfold reno_on_loss. destruct (rn_in_fast_recovery r) eqn:Hf.
-  - unfold reno_ge_mss. rewrite Hf. repeat split; auto; lia.
+  intros r f (Hm & Hc & Hw). unfold reno_on_loss. destruct (rn_in_fast_recovery r) eqn:Hf.
+  - unfold reno_ge_mss. repeat split; lia.
   - unfold reno_ge_mss. reno_fields. unfold sat_add_usize. repeat split; lia.
 Qed.
 
@@ -354,8 +352,7 @@ Qed.
 
 Lemma reno_on_rto_ge_mss : forall r f, reno_ge_mss r -> reno_ge_mss (reno_on_rto r f).
 Proof.
-  intros r f (Hm & Hc & Hw & Hs). unfold reno_on_rto, reno_ge_mss. reno_fields.
-  repeat split; try lia; try discriminate.
+  intros r f (Hm & Hc & Hw). unfold reno_on_rto, reno_ge_mss. reno_fields. repeat split; lia.
 Qed.
 
 Lemma reno_set_remote_window_pos : forall r w, reno_pos r -> reno_pos (reno_set_remote_window r w).
@@ -367,8 +364,8 @@ Qed.
 Lemma reno_set_remote_window_ge_mss : forall r w,
   reno_ge_mss r -> reno_ge_mss (reno_set_remote_window r w).
 Proof.
-  intros r w (Hm & Hc & Hw & Hs). unfold reno_set_remote_window.
-  destruct (Z.ltb_spec (rn_rwnd r) w); unfold reno_ge_mss; reno_fields; repeat split; auto; lia.
+  intros r w (Hm & Hc & Hw). unfold reno_set_remote_window.
+  destruct (Z.ltb_spec (rn_rwnd r) w); unfold reno_ge_mss; reno_fields; repeat split; lia.
 Qed.
 
 Lemma reno_set_mss_pos : forall r m, 0 < m -> reno_pos r -> reno_pos (reno_set_mss r m).
@@ -377,30 +374,15 @@ Proof.
   repeat split; try assumption; lia.
 Qed.
 
-(* [set_mss] (as repaired by /repo 8f8eb43: cwnd := max cwnd mss) keeps "cwnd >= mss"; what it can
-   still lose is the fast-recovery clause: a controller that is in fast recovery (only possible
-   for a socket re-used after a connection that ended in fast recovery: reset() keeps the
-   controller) deflates to the old ssthresh on the next new-data ACK *)
+(* [set_mss] as repaired by /repo 8f8eb43 (cwnd := max cwnd mss); with d04325c (leaving fast
+   recovery deflates to max ssthresh mss) no path can take the window below one MSS.  Both repairs
+   were prompted by counter-models of this lemma set: before 8f8eb43, on_rto; set_mss 1460 gave
+   cwnd 1024 < mss (corpus/C02/tcp-reno-cwnd-below-mss.case); before d04325c, on_loss; set_mss
+   4000; on_ack 1 gave cwnd 2048 < mss 4000. *)
 Lemma reno_set_mss_ge_mss : forall r m,
-  0 < m <= usize_max -> (rn_in_fast_recovery r = true -> m <= rn_ssthresh r) ->
-  reno_ge_mss r -> reno_ge_mss (reno_set_mss r m).
+  0 < m <= usize_max -> reno_ge_mss r -> reno_ge_mss (reno_set_mss r m).
 Proof.
-  intros r m Hm Hs' (_ & Hc & Hw & Hs). unfold reno_set_mss, reno_ge_mss. reno_fields.
-  repeat split; try assumption; lia.
-Qed.
-
-Lemma reno_set_mss_window_ge : forall r m, m <= rn_cwnd (reno_set_mss r m).
-Proof. intros. unfold reno_set_mss. reno_fields. lia. Qed.
-
-(* residual counter-model on the controller alone: fast recovery entered with MSS 1024
-   (ssthresh = 2048), then the MSS is raised to 4000, then new data is acknowledged *)
-Lemma reno_deflate_refuted :
-  exists r m len r', reno_ge_mss r /\ 0 < m <= 65535 /\
-     reno_on_ack (reno_set_mss r m) len = Ok r' /\ rn_cwnd r' < rn_mss r'.
-Proof.
-  exists (reno_on_loss reno_new 0), 4000, 1, (mkReno 2048 4000 2048 65536 false false).
-  split; [apply reno_on_loss_ge_mss, reno_new_ge_mss|]. split; [lia|].
-  split; vm_compute; reflexivity.
+  intros r m Hm (_ & Hc & Hw). unfold reno_set_mss, reno_ge_mss. reno_fields. repeat split; lia.
 Qed.
 
 (* controller level *)
